@@ -134,9 +134,17 @@ Proof.
   - cbn. discriminate.
 Qed.
 
-(* a toy textual form showing the Ipv6 contract is satisfiable *)
-Definition toy_p (a : N) : list N := 58 :: to_bytes 16 a.
-Definition toy_r (s : list N) : option N := match s with 58 :: r => Some (of_bytes r) | _ => None end.
+(* a toy textual form showing that what is assumed of the Ipv6 textual form
+   ([v6_contract], [v6_noslash], [v6_range]) is satisfiable: ':' followed by the 16
+   address bytes shifted out of the ASCII range *)
+Definition toy_p (a : N) : list N := 58 :: map (fun b => b + 256) (to_bytes 16 a).
+Definition toy_r (s : list N) : option N :=
+  match s with
+  | c :: r =>
+      if (c =? 58) && Nat.eqb (length r) 16 && forallb (fun c => (256 <=? c) && (c <? 512)) r
+      then Some (of_bytes (map (fun c => c - 256) r)) else None
+  | [] => None
+  end.
 
 Lemma of_bytes_to_bytes : forall k a, a < 256 ^ N.of_nat k -> of_bytes (to_bytes k a) = a.
 Proof.
@@ -149,12 +157,22 @@ Proof.
     + apply N.div_lt_upper_bound; lia.
 Qed.
 
+Lemma toy_shift : forall l, bytes_ok l ->
+  forallb (fun c => (256 <=? c) && (c <? 512)) (map (fun b => b + 256) l) = true
+  /\ map (fun c => c - 256) (map (fun b => b + 256) l) = l.
+Proof.
+  intros l H. induction H as [|x l Hx _ [IH1 IH2]]; [split; reflexivity|].
+  cbn [map forallb]. rewrite IH1, IH2. split; [lia|f_equal; lia].
+Qed.
+
 Example v6_contract_satisfiable : v6_contract toy_p toy_r.
 Proof.
   split; intros a Ha.
-  - unfold toy_p, toy_r. rewrite of_bytes_to_bytes; [reflexivity|exact Ha].
+  - unfold toy_p, toy_r. rewrite map_length, length_to_bytes. rewrite N.eqb_refl. cbn [Nat.eqb andb].
+    destruct (toy_shift (to_bytes 16 a) (bytes_ok_to_bytes 16 a)) as [-> ->].
+    rewrite of_bytes_to_bytes; [reflexivity|exact Ha].
   - unfold toy_p, ip4_of_string. cbn [split_on]. change (58 =? DOT) with false. cbn iota.
-    destruct (split_on DOT (to_bytes 16 a)) as [|g gs] eqn:E; [apply split_on_nonempty in E; contradiction|].
+    destruct (split_on DOT (map _ (to_bytes 16 a))) as [|g gs] eqn:E; [apply split_on_nonempty in E; contradiction|].
     destruct gs as [|g2 [|g3 [|g4 [|? ?]]]]; try reflexivity.
     destruct g as [|? [|? [|? ?]]]; reflexivity.
 Qed.
@@ -251,3 +269,42 @@ Proof.
   split; [repeat constructor; cbn; lia|]. split; [repeat constructor|].
   repeat constructor; cbn; lia.
 Qed.
+
+(* ------------------------------------------------------------------ *)
+(* NLRI                                                                 *)
+From RB Require Import Proofs.ApiNlri.
+
+Theorem C17_nlri_roundtrip_core :
+  forall v6p v6r n, v6_contract v6p v6r -> v6_noslash v6p -> wf_nlri n ->
+    net_from_api v6r (nlri_to_api v6p n) = Some n.
+Proof. exact nlri_roundtrip. Qed.
+
+Theorem C17_net_from_api_preserves_wf :
+  forall v6r x n, v6_range v6r -> net_from_api v6r x = Some n -> wf_nlri n.
+Proof. intros v6r x n. exact (net_from_api_wf (fun _ => []) v6r x n). Qed.
+
+Theorem C17_nlri_encode_safe :
+  forall p n, wf_nlri n -> exists b, encode_nlri p n = Ok b.
+Proof. exact encode_nlri_safe. Qed.
+
+Example v6_nlri_assumptions_satisfiable : v6_noslash toy_p /\ v6_range toy_r.
+Proof.
+  split.
+  - intros a _. unfold toy_p. cbn [existsb]. change (58 =? SLASH) with false. cbn [orb].
+    destruct (toy_shift (to_bytes 16 a) (bytes_ok_to_bytes 16 a)) as [H _].
+    induction (map (fun b => b + 256) (to_bytes 16 a)) as [|c l IH]; [reflexivity|].
+    cbn [forallb existsb] in *. apply andb_prop in H. destruct H as [Hc Hl]. rewrite (IH Hl).
+    unfold SLASH. lia.
+  - intros s a H. unfold toy_r in H. destruct s as [|c r]; [discriminate|].
+    destruct (N.eqb_spec c 58); [|discriminate].
+    subst. destruct (Nat.eqb_spec (length r) 16) as [El|]; [|discriminate]. cbn [andb] in H.
+    destruct (forallb _ r) eqn:Ef; [|discriminate]. injection H as <-.
+    assert (Hok : bytes_ok (map (fun c => c - 256) r)).
+    { apply Forall_forall. intros x Hx. apply in_map_iff in Hx. destruct Hx as [c [<- Hc]].
+      rewrite forallb_forall in Ef. specialize (Ef c Hc). lia. }
+    pose proof (of_bytes_lt _ Hok) as Hlt. rewrite map_length, El in Hlt. exact Hlt.
+Qed.
+
+Example nlri_roundtrip_example :
+  wf_nlri (NLab6 [100; 3] 1 128) /\ net_from_api toy_r (nlri_to_api toy_p (NLab6 [100; 3] 1 128)) = Some (NLab6 [100; 3] 1 128).
+Proof. split; [|vm_compute; reflexivity]. cbn. repeat split; try lia; try discriminate. repeat constructor; lia. Qed.
